@@ -92,3 +92,24 @@ def _no_dynamic_evaluation():
 
 structural("pint_eval.operator_tables_match_python", _operator_tables, props=["C07"])
 structural("parse_path.no_dynamic_evaluation", _no_dynamic_evaluation, props=["C07"])
+
+# ---- numeric literals: in a float registry an integer literal stays an int, anything else is a float;
+#      in a Decimal / Fraction registry every literal is read by that type directly from the text
+from pv.decl import cls  # noqa: E402
+
+cls("tokenize:TokenInfo", fields={"type": "Int", "string": "Str"})
+contract("pint.util:ParserHelper.eval_token",
+         params={"cls": "Opaque", "token": "Ref[TokenInfo]", "non_int_type": "NumType"},
+         returns="Union[Int,Num]",
+         requires={"number_token": "token.type == 2"},
+         raises={"ValueError": "non_int_type == float and not num_str_ok(token.string)"},
+         ensures={
+             "integer_literals_stay_integers": "implies(non_int_type == float and int_str_ok(token.string), "
+                                               "tag(result) == 0 and alt(result, 0) == int_of_str(token.string))",
+             "other_literals_are_floats": "implies(non_int_type == float and not int_str_ok(token.string), "
+                                          "tag(result) == 1 and alt(result, 1) == num_of_str(token.string, float))",
+             "registry_type_reads_the_text": "implies(non_int_type != float, tag(result) == 1 and "
+                                             "alt(result, 1) == num_of_str(token.string, non_int_type))",
+         },
+         modifies=[], props=["C07"],
+         note="token.NUMBER == 2; the NAME branch (from_word) is not under contract")
